@@ -666,13 +666,22 @@ func (b *Buffer) reverseRange(start, end int) {
 		return
 	}
 	info := b.Info[start:end]
-	pos := b.Pos[start:end]
 	L := len(info)
-	_ = pos[L-1] // BCE
 	for i := L/2 - 1; i >= 0; i-- {
 		opp := L - 1 - i
 		info[i], info[opp] = info[opp], info[i]
-		pos[i], pos[opp] = pos[opp], pos[i] // same length
+	}
+
+	// Pos is only as long as Info once positions exist (see clearPositions):
+	// before that, glyph insertion may have made Info longer than Pos,
+	// whose content is not meaningful yet.
+	if len(b.Pos) < end {
+		return
+	}
+	pos := b.Pos[start:end]
+	for i := L/2 - 1; i >= 0; i-- {
+		opp := L - 1 - i
+		pos[i], pos[opp] = pos[opp], pos[i]
 	}
 }
 
